@@ -683,6 +683,8 @@ const SCRIPTS: &[&str] = &[
     // residual predicates on the indexed column
     "A: CREATE TABLE t (id BIGINT PRIMARY KEY, n BIGINT, s TEXT) ;; B: CREATE TABLE t (id BIGINT, n BIGINT, s TEXT) ;; A: CREATE INDEX ix_n ON t (n) ;; A: CREATE INDEX ix_s ON t (s) ;; AB: INSERT INTO t VALUES (1, 10, 'ab') ;; AB: INSERT INTO t VALUES (2, 20, 'b') ;; Q point-and-lt int present: SELECT * FROM t WHERE n = 10 AND n < 10 ;; Q point-and-point int present: SELECT * FROM t WHERE n = 10 AND n = 20 ;; Q point-and-lt text present: SELECT * FROM t WHERE s = 'ab' AND s < 'ab' ;; Q point-and-point int present: SELECT * FROM t WHERE id = 1 AND id = 2 ;; Q point-and-ge int present: SELECT * FROM t WHERE n = 10 AND n >= 10 ;; Q point-and-other int present: SELECT * FROM t WHERE n = 10 AND id >= 2",
     // ORDER BY through a unique index that holds no NULL keys
+    // UPDATE through the general path (WHERE is not `pk = literal`) that assigns only ONE column of a two-column UNIQUE index, then the other one, then both
+    "A: CREATE TABLE t (id BIGINT PRIMARY KEY, a BIGINT, b BIGINT, g TEXT) ;; B: CREATE TABLE t (id BIGINT, a BIGINT, b BIGINT, g TEXT) ;; A: CREATE UNIQUE INDEX ux_ab ON t (a, b) ;; AB: INSERT INTO t VALUES (1, 10, 1, 'x') ;; AB: INSERT INTO t VALUES (2, 20, 1, 'y') ;; AB: INSERT INTO t VALUES (3, 30, 2, 'z') ;; AB: INSERT INTO t VALUES (4, 20, 2, 'w') ;; AB: UPDATE t SET a = 40 WHERE g = 'y' ;; Q after-partialkey_first_col int present: SELECT * FROM t WHERE a = 40 ;; Q after-partialkey_first_col int absent: SELECT * FROM t WHERE a = 20 ;; Q after-partialkey_first_col int present: SELECT * FROM t WHERE a = 40 AND b = 1 ;; AB: UPDATE t SET b = 7 WHERE g = 'z' ;; Q after-partialkey_second_col int present: SELECT * FROM t WHERE a = 30 ;; Q after-partialkey_second_col int present: SELECT * FROM t WHERE a = 30 AND b = 7 ;; Q after-partialkey_second_col int absent: SELECT * FROM t WHERE a = 30 AND b = 2 ;; AB: UPDATE t SET a = 50, b = 5 WHERE g = 'w' ;; Q after-fullkey_general int present: SELECT * FROM t WHERE a = 50 ;; Q after-fullkey_general int absent: SELECT * FROM t WHERE a = 20 ;; Q after-fullkey_general int all: SELECT * FROM t WHERE a >= 0",
     "A: CREATE TABLE t (id BIGINT PRIMARY KEY, u BIGINT UNIQUE, k TEXT) ;; B: CREATE TABLE t (id BIGINT, u BIGINT, k TEXT) ;; A: CREATE UNIQUE INDEX ux_k ON t (k) ;; AB: INSERT INTO t VALUES (1, 100, 'a') ;; AB: INSERT INTO t VALUES (2, NULL, NULL) ;; AB: INSERT INTO t VALUES (3, 300, 'c') ;; Q orderby int all: SELECT * FROM t ORDER BY u ;; Q orderby-desc int all: SELECT * FROM t ORDER BY u DESC ;; Q orderby text all: SELECT * FROM t ORDER BY k ;; Q orderby int all: SELECT * FROM t ORDER BY id",
 ];
 
